@@ -162,7 +162,13 @@ def compare(rec, model_out):
 
 def process_chunk(chunk):
     mod = _MOD
-    recs = [eval_one(mod, scn) for scn in chunk]
+    recs = []
+    for scn in chunk:
+        if _WATCHDOG_HITS[0] >= 3:
+            # the tree hangs on scenario after scenario: three witnesses per worker are enough, the rest of
+            # the chunk is skipped (the verdict is a violation anyway; the evidence counts what was run)
+            break
+        recs.append(eval_one(mod, scn))
     if _DRIVER_OK:
         lines = []
         for r in recs:
